@@ -302,11 +302,21 @@ func (s *Sched) collectYields() {
 		}
 		return nw[i].gid < nw[j].gid
 	})
-	for _, p := range nw {
+	// Goroutines that arrive at one site within one scheduler step are indistinguishable for a
+	// replay (goroutine ids are handed out per P in batches: their order is not the creation order
+	// when GOMAXPROCS > 1): they all get the hit index - and therefore the hold - of the first.
+	for i, p := range nw {
 		p := p
-		p.k = s.yHits[p.site]
-		s.yHits[p.site] = p.k + 1
+		if i > 0 && nw[i-1].site == p.site {
+			p.k = nw[i-1].k
+		} else {
+			p.k = s.yHits[p.site]
+		}
+		s.yHits[p.site]++
 		d := s.holdFor(p.site, p.k)
+		if spec := s.yEnabled[p.site]; spec.Mode == 1 && d == 0 && spec.Hit > p.k && spec.Hit < s.yHits[p.site] {
+			d = spec.Hold
+		}
 		s.holdTotal.Add(int64(d))
 		if s.Log != nil {
 			s.Log.Add("yield:"+p.site, "park", "k=%d hold=%d", p.k, int64(d))
